@@ -55,3 +55,23 @@ PROPS['C12'] = dict(
     assumptions=['encoding/binary little-endian fixed-width semantics', 'bytes.Buffer.Read/Next semantics as modelled in Mkdb/Model/Bin.lean'],
     trusted_base=['model Mkdb/Model/Page.lean + Mkdb/Model/Bin.lean hand-written from storage/page.go'],
 )
+
+PROPS['C08'] = dict(
+    lean=['Mkdb.Props.C08', 'Mkdb.Props.C12'],
+    facts=['layout.Tuple.Encode', 'layout.Tuple.Decode', 'const.storage.maxValueSize',
+           'const.storage.TypeInt', 'const.storage.TypeVarchar', 'const.storage.TypeBoolean', 'const.storage.TypeBigInt'],
+    runs=[dict(cmd='tuple', proto='tuple')],
+    claim='Proof: C08_tuple_roundtrip (for every schema with distinct column names and every assignment of int64 / byte-string / '
+          'boolean / NULL values, what Tuple.Encode accepts Tuple.Decode returns bit-for-bit), C08_accept_iff (a row is accepted '
+          'exactly when each column is NULL or of the column type, INT within 32 bits) and C08_refuse_kind (which error) are Lean '
+          'theorems over the byte-level row codec model; C12_roundtrip carries the bytes through a page. Tie: Encode/Decode field '
+          'layouts re-extracted every run; the encoded bytes, error kinds and decoded maps are compared with the real '
+          'Tuple.Encode/Decode on boundary and random rows; the judge evaluates accept/refuse and read-back on the implementation.',
+    note='Trusted: Lean kernel, hand-written model of relation.go Tuple/FieldDef, Go map modelled as association list, harness. '
+         'Statement-level read-back (flush, eviction, restart) is exercised by the C01/C02/C16 runs, literals by C09/C10.',
+    rule='single-column schemas x every boundary value of every kind (exhaustive), then random schemas of 1-8 columns over the four '
+         'types with valid rows, rows with one invalid column, type-confused rows, absent / explicit-NULL columns, unknown columns, '
+         'duplicate assignments and duplicate column names. Non-trivial: non-empty schema and assignment; distinct by text.',
+    assumptions=['reflect.Kind of the supplied Go values is int64/string/bool/nil (what parser and csvimport produce)'],
+    trusted_base=['model Mkdb/Model/Tuple.lean hand-written from storage/relation.go'],
+)
